@@ -116,6 +116,9 @@ def run_case(case, rec):
             ok, Hc = safe(G.time_slice, a, b) if b is not None else safe(G.time_slice, a)
             if ok:
                 common.check_continuation(rec, 'C06.wf.continue', Hc, Hm, case, d.nodes, ctx=ctx, k=wi + len(case['ops']))
+                # ... and writing to the slice must not write to the graph it came from
+                common.check_presence(rec, 'C06.new_graph.source_after_slice_grew', G, M, d.nodes, ctx=ctx)
+                common.check_timelines(rec, 'C06.new_graph.source_after_slice_grew', G, M, ctx=ctx)
             # classification / non-triviality
             cut = miss = False
             for k in M.orient:
